@@ -129,6 +129,7 @@ type outcome struct {
 	flagish  bool   // a non-boolean flag took a next-token value that starts with '-'
 	loaded   bool   // the JSON file was loaded
 	nflags   int    // flag occurrences assigned
+	vals     []any  // expected field values of a table-built struct (layout.go); nil for Cfg
 }
 
 // files the model knows about
@@ -139,6 +140,37 @@ type files struct {
 func refParse(argv []string, fl files) (o outcome) {
 	var set [nFlags]bool
 	var text [nFlags]string
+	if !scan(argv, flagIndex, flagKinds[:], set[:], text[:], &o) {
+		return o
+	}
+
+	// values: command line ?: JSON file ?: tag default
+	o.cfg = defaults()
+	if set[fConfig] && text[fConfig] != "" {
+		if text[fConfig] != fl.valid {
+			o.class = "config-file"
+			return o
+		}
+		o.cfg = jsonValues()
+		o.loaded = true
+	}
+	for fi := 0; fi < nFlags; fi++ {
+		if !set[fi] {
+			continue
+		}
+		if !assign(&o, fi, text[fi]) {
+			o.class = "bad-value:" + flagNames[fi]
+			return o
+		}
+	}
+	return o
+}
+
+// scan is the grammar proper: it walks the vector, records the effective text of every flag
+// (set/text, indexed like kinds) and where parsing stopped (o.args, o.stop, o.consumed). It
+// returns false when the vector violates the grammar (o.class says how). The flag set is
+// given by index (name -> position) and kinds; the same loop serves every workload struct.
+func scan(argv []string, index map[string]int, kinds []kind, set []bool, text []string, o *outcome) bool {
 	i := 0
 	o.stop = "end"
 loop:
@@ -169,17 +201,17 @@ loop:
 		}
 		if body == "" || body[0] == '-' || body[0] == '=' {
 			o.class, o.stop, o.consumed = "syntax", "error", i+1
-			return o
+			return false
 		}
 		name, val, has := strings.Cut(body, "=")
-		fi, ok := flagIndex[name]
+		fi, ok := index[name]
 		if !ok {
 			o.class, o.stop, o.consumed = "undefined", "error", i+1
-			return o
+			return false
 		}
 		i++
 		if !has {
-			if flagKinds[fi] == kBool {
+			if kinds[fi] == kBool {
 				val = "true"
 				if i < len(argv) && (argv[i] == "" || argv[i][0] != '-' || argv[i] == "-") {
 					o.stray = true
@@ -192,7 +224,7 @@ loop:
 				i++
 			} else {
 				o.class, o.stop, o.consumed = "missing-value:"+name, "error", i
-				return o
+				return false
 			}
 		}
 		if set[fi] {
@@ -203,27 +235,7 @@ loop:
 		o.consumed = i
 	}
 	o.args = argv[i:]
-
-	// values: command line ?: JSON file ?: tag default
-	o.cfg = defaults()
-	if set[fConfig] && text[fConfig] != "" {
-		if text[fConfig] != fl.valid {
-			o.class = "config-file"
-			return o
-		}
-		o.cfg = jsonValues()
-		o.loaded = true
-	}
-	for fi := 0; fi < nFlags; fi++ {
-		if !set[fi] {
-			continue
-		}
-		if !assign(&o, fi, text[fi]) {
-			o.class = "bad-value:" + flagNames[fi]
-			return o
-		}
-	}
-	return o
+	return true
 }
 
 // assign parses the effective text of one flag; empty text is the zero value.
